@@ -24,6 +24,8 @@ CP = "hta.analyzers.critical_path_analysis"
 
 
 def run(db, chk) -> None:
+    from ..specs.discipline import check_facade_stateless
+    check_facade_stateless(db, chk, "C08.R-facade-stateless", ['critical_path_analysis'])
     from ..specs.endcoherence import check_time_dtype
     check_time_dtype(db, chk, "C08.R8-time-dtype")          # node times and edge weights are differences of ts / ts + dur of the loaded frame
     from ..specs.discipline import check_stateless
